@@ -1255,19 +1255,22 @@ def check_C06(rep, prog, tier):
                         'store / source / hash / JSON models as in C03']
     for delete_latest, empty in ((False, False), (True, False), (False, True)):
         _race_obligation(rep, prog, RC, bound, dl, delete_latest, empty)
+    # the collector run with break_lock (gc --break-lock): it must still refuse or be refused while a backup is in progress
+    _race_obligation(rep, prog, RC, bound, dl, False, False, break_lock=True)
 
 
-def _race_obligation(rep, prog, RC, bound, dl, delete_latest, empty=False):
+def _race_obligation(rep, prog, RC, bound, dl, delete_latest, empty=False, break_lock=False):
     from .interp import parallel_explore
-    res, st, fns, mods, inc = parallel_explore(prog, RC.make_race(prog, bound, delete_latest=delete_latest, empty_archive=empty), deadline=dl,
-                                               max_paths=400000, step_budget=900000)
+    res, st, fns, mods, inc = parallel_explore(prog, RC.make_race(prog, bound, break_lock=break_lock, delete_latest=delete_latest, empty_archive=empty),
+                                               deadline=dl, max_paths=400000, step_budget=900000)
     rep.functions |= fns
     rep.models |= mods
     rep.samples += res.get('samples', [])[:2]
     stats = _stats(st)
     name = ('a backup racing %s: after every interleaving (<= %d preemptions) every complete version refers only to blocks that still exist'
             % ('a delete of the newest version (its basis)' if delete_latest else
-               'a garbage collection of an archive that holds no version yet, only left-over blocks' if empty else 'a garbage collection', bound))
+               'a garbage collection of an archive that holds no version yet, only left-over blocks' if empty else
+               'a garbage collection run with break_lock' if break_lock else 'a garbage collection', bound))
     for b in res['bad']:
         m = b.get('model') or {}
         sa, sg = m.get('size_a', 10), m.get('size_g', 10)
@@ -1279,6 +1282,8 @@ def _race_obligation(rep, prog, RC, bound, dl, delete_latest, empty=False):
               'mirsym': {'key': b['key'], 'results': b['results'], 'schedule': [(a, v, p[-20:]) for a, v, p in b['schedule']]}}
         if empty:
             sc['remove_first_version'] = True
+        if break_lock:
+            sc['break_lock'] = True
         if delete_latest:
             fc = {'path': '/c', 'kind': 'File', 'content_len': m.get('size_c', 9), 'content_class': 3, 'mtime': [12, 0], 'mode': 0o644}
             sc['middle_tree'] = [sc['first_tree'][0], fc]
